@@ -305,7 +305,7 @@ CreatingProc(j, a, i, t) ==   \* job-private instance manager, after creating th
   /\ "jpim" \in Features /\ <<j, a, i>> \in jdisp /\ js[j] # "none" /\ t \in Times
   /\ StartLike(j, a, i, t, "Ready", "pending", "Creating")
 
-\* mark_job_complete (116).  a = NULL: the canceller's completion of a Ready job (no attempt, no instance).
+\* mark_job_complete (116, 123).  a = NULL: the canceller's completion of a Ready job (no attempt, no instance).
 MJC(j, a, i, st, t0, t1, reason) ==
   LET aa == IF a = NULL THEN <<att, inst>> ELSE AddAttempt(j, a, i)
       oldEnd == IF a = NULL THEN NULLT ELSE aa[1][j][a].en
@@ -315,13 +315,12 @@ MJC(j, a, i, st, t0, t1, reason) ==
       inst1 == IF release THEN [aa[2] EXCEPT ![i].free = @ + JCores[j]] ELSE aa[2]
       stale == jatt[j] # NULL /\ a # NULL /\ jatt[j] # a          \* NULL != x is not true
   IN
-  \* scenario guard (finding "uncchild"): a job completes while a child of an uncommitted update exists
-  /\ ("uncchild" \in Avoid /\ ~stale /\ js[j] \in Live) =>
-        \A c \in Jobs : (js[c] # "none" /\ j \in JPar[c]) => us[JUpd[c]] = "committed"
   /\ att' = na /\ inst' = inst1
   /\ BillingAfter([k \in Jobs |-> IF k = j /\ a # NULL /\ ares[j][a] THEN (Billed(na[j][a]) - Billed(aa[1][j][a])) * ResQ ELSE 0])
   /\ IF ~stale /\ js[j] \in Live
-     THEN LET Ch == { c \in Jobs : js[c] # "none" /\ j \in JPar[c] }           \* rows of job_parents
+     THEN LET \* rows of job_parents whose child belongs to a committed update (123: children of an update that is not committed are
+              \* left to commit_batch_update's recount; before 123 they were released too - repaired, see known_findings.json)
+              Ch == { c \in Jobs : js[c] # "none" /\ j \in JPar[c] /\ us[JUpd[c]] = "committed" }
               S == {j} \cup Ch
               new == [ k \in S |->
                         IF k = j THEN [s |-> st, c |-> jc[j]]
